@@ -158,6 +158,11 @@ func c11GenArg(ctx *Ctx, fn string, i int, p function.Parameter, inject bool) ct
 	if inject {
 		o.Unknown, o.Null, o.Marks, o.DynVal = r.Intn(2) == 0, r.Intn(2) == 0, r.Intn(2) == 0, r.Intn(2) == 0
 	}
+	if inject && p.AllowDynamicType && t != cty.DynamicPseudoType && r.Intn(16) == 0 {
+		// AllowDynamicType lets cty.DynamicVal through to the callbacks whatever the parameter's
+		// type constraint is (setunion(DynamicVal, …) reported an internal panic before /repo 8027069)
+		return cty.DynamicVal
+	}
 	if t == stdlib.Bytes {
 		b := []byte(genString(r))
 		v := stdlib.BytesVal(b)
@@ -251,7 +256,7 @@ func c11Sig(fn, msg string) string {
 	msg = strings.ToLower(msg)
 	for _, k := range []string{"nil pointer", "index out of range", "slice bounds", "negative repeat count", "value is null", "value is unknown", "value is marked",
 		"not a number", "division of zero", "addition of infinities", "nan", "can't use elementiterator", "does not conform", "wrong type", "makeslice", "unhashable", "incompatible set rules",
-		"inconsistent", "refine"} {
+		"inconsistent", "refine", "not a collection type"} {
 		if strings.Contains(msg, k) {
 			return strings.ReplaceAll(k, " ", "-") + ":" + fn
 		}
@@ -368,6 +373,34 @@ func runC11(ctx *Ctx) {
 		defer func(name string) {}(fn.name)
 		ps := fn.f.Params()
 		vp := fn.f.VarParam()
+		// case 0 (regression, /repo 8027069): a dynamically-typed argument for an AllowDynamicType
+		// parameter of a non-placeholder type, every other argument from the intended domain
+		for j := 0; j < len(ps)+1; j++ {
+			n := len(ps)
+			if vp != nil {
+				n++
+			}
+			if j >= n {
+				break
+			}
+			pj := vp
+			if j < len(ps) {
+				pj = &ps[j]
+			}
+			if !pj.AllowDynamicType || pj.Type == cty.DynamicPseudoType {
+				continue
+			}
+			args := make([]cty.Value, n)
+			for i := range args {
+				p := vp
+				if i < len(ps) {
+					p = &ps[i]
+				}
+				args[i] = c11GenArg(ctx, fn.name, i, *p, false)
+			}
+			args[j] = cty.DynamicVal
+			c11One(ctx, fn, args)
+		}
 		for k := 0; k < per; k++ {
 			n := len(ps)
 			if vp != nil {
